@@ -21,7 +21,7 @@ use crate::util::{hex, Budget, Report, Tier, Violation};
 pub const UKEYS: [&[u8]; 7] = [b"a", b"a\x00", b"ab", b"a\xff", b"a\xff\xff", b"b", b"\xff"];
 /// lookup targets that are never stored (before, between, after)
 pub const ABSENT: [&[u8]; 4] = [b"\x01", b"a\x01", b"az", b"\xff\xff"];
-pub const SEQS: [u64; 3] = [9, 5, 1];
+pub const SEQS: [u64; 3] = [9, 5, 0];
 
 #[derive(Clone, Debug)]
 pub struct Topt {
@@ -82,7 +82,9 @@ pub fn universe(nkeys: usize, nseqs: usize) -> Vec<VEntry> {
 	let mut u = vec![];
 	let mut i = 0usize;
 	for k in &UKEYS[..nkeys] {
-		for s in &SEQS[..nseqs] {
+		// sequence number 0 is legal in a table and is the edge of the (key, seq) order
+		let seqs: Vec<u64> = if nseqs == 2 { vec![9, 0] } else { SEQS[..nseqs].to_vec() };
+		for s in &seqs {
 			let kind = [2u8, 0, 2, 1, 6, 2, 2][i % 7]; // Set, Delete, Set, SoftDelete, Replace, Set, Set
 			let value = if kind == 0 || kind == 1 {
 				vec![]
